@@ -294,7 +294,7 @@ def module_rules(ctx, run):
                     problems.append(f"does not call bs_{fam}_{g}")
                 fparams = [a.arg for a in prog.functions[B.F + f"bs_{fam}_{g}"].node.args.args]
                 for e in calls_f:
-                    kw = dict(e["kwargs"])
+                    kw = dict(e.get("bound") or e["kwargs"])   # arguments by parameter name, however they were passed
                     for n in names:
                         if kw.get(n) != _W.tensor(n):
                             problems.append(f"{n} not forwarded")
